@@ -1,3 +1,4 @@
 import Driver.Codec
 import Driver.TextOps
 import Driver.ParseOps
+import Driver.GenOps
